@@ -50,7 +50,7 @@ func c03(c *an.Check) {
 			if !p.DependsOn(msg, func(v ssa.Value) bool { return an.ResultCallTo(v, fnMarshalPKIX) != nil }) {
 				ok, det = false, "verified message does not depend on the PKIX encoding of the certificate key"
 			}
-			if !p.DependsOn(msg, func(v ssa.Value) bool { return isNamedConst(v, "certificatePrefix") }) {
+			if !p.DependsOnDeep(msg, func(v ssa.Value) bool { return isNamedConst(v, "certificatePrefix") }) {
 				ok, det = false, "verified message does not include the certificate prefix constant"
 			}
 			sig := vc.Call.Args[1]
@@ -107,7 +107,7 @@ func c03(c *an.Check) {
 		if ok {
 			msg := sc[0].Call.Args[0]
 			ok = p.DependsOn(msg, func(v ssa.Value) bool { return an.ResultCallTo(v, fnMarshalPKIX) != nil }) &&
-				p.DependsOn(msg, func(v ssa.Value) bool { return isNamedConst(v, "certificatePrefix") })
+				p.DependsOnDeep(msg, func(v ssa.Value) bool { return isNamedConst(v, "certificatePrefix") })
 		}
 		c.Require(ok, "MIRROR", "p2ptls.GenerateSignedExtension signs prefix‖PKIX(cert key)", gse, "", len(sc), "sign side builds the same message as the verify side", "sign side does not build certificatePrefix‖PKIX(key)")
 	} else {
